@@ -72,7 +72,7 @@ def gen_cases(tier, seed):
                         flags = rnd.choice([0, 1]) | 8 | rnd.choice([0, 2])
                     n = rnd.choice([0, 1, 3]) if rnd.random() < 0.25 else rnd.choice([8, 20, 45])
                     cases.append({"kind": kind, "nodes": nodes, "ppn": ppn, "n": n, "flags": flags, "seed": rnd.randrange(1, 10 ** 9),
-                                  "sim_seed": rnd.randrange(1, 10 ** 6), "routing": rnd.choice(["NONE", "NR", "NLNR"])})
+                                  "sim_seed": rnd.randrange(1, 10 ** 6), "routing": rnd.choice(["NONE", "NR", "NLNR"]), "buffer_kb": rnd.choice([None, None, 1, 0])})
     # strings with NUL bytes, kept apart so that their failures cannot mask anything else; first the minimal directed one
     cases.insert(0, {"kind": "set", "nodes": 1, "ppn": 1, "n": 2, "flags": 4 | 64, "seed": 1, "sim_seed": 1})
     for kind in (KINDS if tier != "quick" else ["map", "set", "bag"]):
@@ -84,7 +84,8 @@ def gen_cases(tier, seed):
 
 def run_case(binary, case):
     return C.run_sim(binary, ["ser", case["kind"], case["seed"], case["n"], case["flags"]], nodes=case["nodes"], ppn=case["ppn"],
-                     sim_seed=case.get("sim_seed", 1), want_log=False, timeout=120, env={"YGM_COMM_ROUTING": case.get("routing", "NONE")})
+                     sim_seed=case.get("sim_seed", 1), want_log=False, timeout=120, env=dict({"YGM_COMM_ROUTING": case.get("routing", "NONE")},
+                              **({"YGM_COMM_BUFFER_SIZE_KB": case["buffer_kb"]} if case.get("buffer_kb") is not None else {})))
 
 
 def parse_elem(kind, w):
@@ -454,7 +455,7 @@ def replay(data):
     if binary is None:
         print(err[-500:])
         return False
-    keep = {k: case[k] for k in ("kind", "nodes", "ppn", "n", "flags", "seed", "sim_seed", "routing") if k in case}
+    keep = {k: case[k] for k in ("kind", "nodes", "ppn", "n", "flags", "seed", "sim_seed", "routing", "buffer_kb") if k in case}
     sr = run_case(binary, keep)
     res = C.Result()
     check_case(res, keep, sr, True)
